@@ -9,8 +9,9 @@ for d in sorted(glob.glob(os.path.join(os.path.dirname(os.path.dirname(os.path.a
     needs = m.get("needs_to_manifest", "")
     if needs == "see notes.md" and os.path.exists(d + "/notes.md"):
         needs = ""
-    det = sorted(k for k, v in m["checks"].items() if v["detected"])
-    miss = sorted(k for k, v in m["checks"].items() if not v["detected"])
+    checks = {k: v for k, v in m["checks"].items() if "(scratch)" not in k}
+    det = sorted(k for k, v in checks.items() if v["detected"])
+    miss = sorted(k for k, v in checks.items() if not v["detected"])
     summary = m.get("summary", "")
     rows.append((name, m["breaks_property"], summary, ", ".join(det) or "-", ", ".join(miss) or "-"))
 print("| seeded change | property | what it does / what it needs | detected by | also run, silent (other property) |")
